@@ -670,7 +670,7 @@ def run_graph_history_part(ctx, agg, part):
     n, lo, hi = part["n"], part["lo"], part["hi"]
     for mask in range(lo, hi):
         for edit in graph_edits(n, mask):
-            for cls_name in ("Connectivity", "Molecule", "ConformerEnsemble"):
+            for cls_name in ("Connectivity", "Molecule", "ConformerEnsemble") if n <= 4 else ("Connectivity",):
                 graph_history_case(ctx, agg, cls_name, n, mask, edit, ctx.seed)
 
 
@@ -894,7 +894,7 @@ def run(ctx):
         run_forked(ctx, agg, [(f"graph history n={p['n']} [{p['lo']},{p['hi']})", run_graph_history_part, p) for p in hparts], nproc, 800)
         run_forked(ctx, agg, [(f"matching history part {i}", run_match_history_part, p) for i, p in enumerate(mh)], nproc, 800)
     ctx.bound["H_graph_atoms_max"] = hn
-    ctx.bound["H_graph_edits"] = "every single bond toggled (append_bond / del_bond), every atom deleted; on Connectivity, Molecule, ConformerEnsemble"
+    ctx.bound["H_graph_edits"] = "every single bond toggled (append_bond / del_bond), every atom deleted; on Connectivity, Molecule, ConformerEnsemble (5 atoms: Connectivity)"
     ctx.bound["H_match_edits"] = list(MATCH_EDITS)
     conseq = list(CONSEQUENTIAL) + [(f"{d}:history[{e}]", f"{u}:history[{e}]") for d, u in CONSEQUENTIAL for e in MATCH_EDITS]
     agg.emit(ctx, consequential=conseq)
